@@ -116,6 +116,9 @@ def expr(dim, custom, depth, positive=False):
         if r == "fn":
             f = draw(st.sampled_from(["exp", "log10", "sin", "cos"]))
             arg = draw(gen(dim="none", depth=depth - 1, positive=True)) if f == "log10" else sub("none", positive)
+            if f in ("exp", "log10") and draw(st.integers(0, 3)) == 0:
+                # a dimensionless argument written in per cent: 10 % is the number 0.1
+                arg = ["num", draw(st.sampled_from([10.0, 50.0, 250.0, 1.0, 100.0])), "%"]
             return ["fn", f, arg]
         if r == "fn_angle":
             # an angle given in deg / mrad must be taken in radians by sin and cos
